@@ -1,2 +1,17 @@
 import Plonk.Props.C17
 #print axioms Plonk.Props.C17.placeholder_consts
+#print axioms Plonk.Props.C17.readG1s_bound
+#print axioms Plonk.Props.C17.readScalars_bound
+#print axioms Plonk.Props.C17.g1_compressed_wf
+#print axioms Plonk.Props.C17.scalar_wf
+#print axioms Plonk.Props.C17.raw_wf
+#print axioms Plonk.Props.C17.proof_wf
+#print axioms Plonk.Props.C17.vkey_wf
+#print axioms Plonk.Props.C17.openingkey_wf
+#print axioms Plonk.Props.C17.verifier_wf
+#print axioms Plonk.Props.C17.verifier_not_enough_bytes
+#print axioms Plonk.Props.C17.evals_wf
+#print axioms Plonk.Props.C17.commitkey_raw_wf
+#print axioms Plonk.Props.C17.pkey_wf
+#print axioms Plonk.Props.C17.prover_wf
+#print axioms Plonk.Props.C17.pp_wf
